@@ -4,6 +4,10 @@ From Coq Require Import ZifyBool ZifyNat.
 Local Open Scope Z_scope.
 Ltac Zify.zify_post_hook ::= Z.to_euclidean_division_equations.
 
+(* the table generator found every constant in the shape it expects (see harness/gens/c13.py) *)
+Lemma gen_c13_shape : gen_c13_shape_ok = true.
+Proof. reflexivity. Qed.
+
 (* ---- the constants are what the table says (a changed constant breaks these lemmas) ------------ *)
 Lemma prec_val : prec = 28. Proof. reflexivity. Qed.
 Lemma SATOSHI_PER_COIN_val : SATOSHI_PER_COIN = mk_dec false (10 ^ 8) 0. Proof. reflexivity. Qed.
